@@ -384,15 +384,25 @@ def run_missing(seed, n):
 
 
 # ------------------------------------------------------------------ C13
-def run_laws(seed, n, bundled=False):
+def run_laws(seed, n, forced=None):
+    """forced: optional list of (call, law) to examine instead of generated calls (used by the search
+    that follows a broken proof obligation: calls on which the join lost a pair)."""
     rng = random.Random(seed + 109)
     res = result_dict(0, {'law': {}, 'measure': {}})
     groups, info = [], []
+    if forced is not None:
+        n = len(forced)
     for i in range(n):
         law = rng.choice(['transpose', 'refine', 'partition'])
         call = J.gen_call(rng, None)
-        if rng.random() < 0.3 and call['measure'] in JCD + ('OVERLAP_COEFFICIENT',):
+        r_ = rng.random()
+        if r_ < 0.3 and call['measure'] in JCD + ('OVERLAP_COEFFICIENT',):
             call = J.boundary_call(rng, call['measure'])
+        elif r_ < 0.6 and call['measure'] != 'EDIT_DISTANCE':
+            call = J.skew_call(rng, call['measure'])
+        if forced is not None:
+            call, law = forced[i]
+            call = dict(call)
         call['with_score'] = True
         call['l_out'] = call['r_out'] = None
         m = call['measure']
